@@ -89,7 +89,7 @@ Definition c03_step_ok (cap : N) (g : lg) (o : op) (r : result) : bool :=
     match r with
     | REntries os =>
       (N.of_nat (length os) <=? cap)
-      && ((sum_out_len os <=? maxb) || (length os =? 1)%nat)
+      && ((N.min u64_max (sum_out_len os) <=? maxb) || (length os <=? 1)%nat)
       && (match start, os, remaining (lget g (t_id t)) with
           | None, [], _ :: _ => false        (* stateful, something unconsumed, nothing returned *)
           | _, _, _ => true
